@@ -473,6 +473,31 @@ func (ex *Exec) havocHeap(st *State, keys []string) {
 		// so that later first-time reads do not see the initial array.
 		st.heap["__epoch"] = ex.sc.Fresh("epoch", SInt)
 	} else {
+		var expanded []string
+		for _, k := range keys {
+			if strings.HasSuffix(k, "*") {
+				pre := strings.TrimSuffix(k, "*")
+				seen := map[string]bool{}
+				for hk := range st.heap {
+					if strings.HasPrefix(hk, pre) && !seen[hk] {
+						seen[hk] = true
+						expanded = append(expanded, hk)
+					}
+				}
+				for hk := range ex.heapInits {
+					if strings.HasPrefix(hk, pre) && !seen[hk] {
+						seen[hk] = true
+						expanded = append(expanded, hk)
+					}
+				}
+				// arrays not yet seen: remember the prefix as havocked
+				st.heap["__hvp."+pre] = ex.sc.Fresh("hvmark", SInt)
+				continue
+			}
+			expanded = append(expanded, k)
+		}
+		sort.Strings(expanded)
+		keys = expanded
 		for _, k := range keys {
 			cur, ok := st.heap[k]
 			if !ok {
@@ -499,6 +524,14 @@ func (ex *Exec) heapRead(st *State, key string, sort Sort) Term {
 	}
 	_, epoch := st.heap["__epoch"]
 	_, mark := st.heap["__hv."+key]
+	if !mark {
+		for hk := range st.heap {
+			if strings.HasPrefix(hk, "__hvp.") && strings.HasPrefix(key, hk[6:]) {
+				mark = true
+				break
+			}
+		}
+	}
 	if epoch || mark {
 		t := ex.sc.Fresh("hv."+key, sort)
 		st.heap[key] = t
